@@ -168,7 +168,40 @@ def malformed_case(c):
     return dict(status="ok")
 
 
+def pop_matrix_case(c):
+    """Population / Connectivity circuits with matrix delays: a discrete (ring buffer) delay registered before or after a gamma-kernel
+    one; a backend with immutable arrays must refuse the fixed-step run whatever the order."""
+    from rtc import oracle
+    pop = gen.op_li("op", x="r", ins=("r_in",), tau=2.0, x0=0.4, in_defaults={"r_in": 0.0})
+    W = [[0.0, 0.5, -1.0], [0.3, 0.0, 0.8], [1.0, -0.4, 0.0]]
+    conns = {"discrete-then-gamma": [dict(src="a/op/r", tgt="b/op/r_in", W=W, d=0.3), dict(src="b/op/r", tgt="a/op/r_in", W=W, d=0.3, s=0.1)],
+             "gamma-then-discrete": [dict(src="a/op/r", tgt="b/op/r_in", W=W, d=0.3, s=0.1), dict(src="b/op/r", tgt="a/op/r_in", W=W, d=0.3)],
+             "discrete": [dict(src="a/op/r", tgt="b/op/r_in", W=W, d=0.3)]}[c["delay"]]
+    ps = dict(ops={"op": pop}, pops={"a": dict(ops=["op"], n=3, params={"op/r": [0.1, 0.2, 0.3]}), "b": dict(ops=["op"], n=3, params={"op/r": [0.3, 0.2, 0.1]})},
+              conns=conns)
+    outcome, detail = "returns", ""
+    try:
+        with warnings.catch_warnings():
+            warnings.simplefilter("ignore")
+            tpl = oracle.build_population_circuit(ps)
+            tpl.run(simulation_time=0.5, step_size=0.1, solver=c["solver"], outputs={"o": "a/op/r"}, backend=c["backend"], verbose=False, clear=True,
+                    float_precision="float64")
+    except Exception as exn:
+        outcome, detail = "raises", f"{type(exn).__name__}: {str(exn)[:120]}"
+    exp = "raises" if c["backend"] == "jax" else "returns"
+    if outcome != exp:
+        if exp == "raises":
+            return dict(status="violated", fails=[dict(clause="an unsupported combination raises instead of returning numbers", observed="returned a result",
+                                                       expected="exception")])
+        if "NotImplemented" in detail or "not support" in detail or "not implemented" in detail:
+            return dict(status="violated", fails=[dict(clause="a supported combination is not refused", observed=detail, expected="result")])
+        return dict(status="skipped")
+    return dict(status="ok")
+
+
 def dispatch(c):
+    if c["kind"] == "pop_matrix":
+        return pop_matrix_case(c)
     return matrix_case(c) if c["kind"] == "matrix" else malformed_case(c)
 
 
@@ -194,13 +227,18 @@ def run(chk):
             for delay in ("none",):
                 cases.append(dict(tag=f"{b}/jacobian/{'sparse' if sparse else 'dense'}", features=dict(backend=b, sparse=sparse), kind="matrix",
                                   what="jacobian", backend=b, solver="euler", vectorize=False, delay=delay, sparse=sparse))
+    for b in ("default", "jax"):
+        for delay in ("discrete", "discrete-then-gamma", "gamma-then-discrete"):
+            for s_ in ("euler", "heun"):
+                cases.append(dict(tag=f"population/{b}/{s_}/{delay}", features=dict(backend=b, solver=s_, delay=delay, population=True), kind="pop_matrix",
+                                  backend=b, solver=s_, delay=delay))
     for tag, exp, model, opts in malformed_variants():
         for vec in (False, True):
             cases.append(dict(tag=tag, features=dict(expect=exp, vec=vec), kind="malformed", expect=exp, model=model, opts=opts, vec=vec))
     driver.run_family(
         chk, "guard-matrix-and-malformed-models", cases, dispatch, site="C20/api",
         rule="backend {default, torch, jax, fortran} x solver {euler, heun, scipy, diffrax, rk45} x vectorize x delay kind {none, "
-             "discrete, gamma, discrete registered before gamma}: every combination the class attributes declare unsupported must "
+             "discrete, gamma, discrete registered before gamma} (scalar edges, and Population / Connectivity circuits with the two orders): every combination the class attributes declare unsupported must "
              "raise (supported ones on the default backend as controls); dense/sparse Jacobian per backend; malformed variants of a "
              "valid two-operator model: undeclared variable (also one that a sibling operator with a longer name declares), reserved "
              "names, node value for a missing operator, misspelt edge source/target and output paths, two outputs, a cyclic operator "
